@@ -219,17 +219,46 @@ class Reducer:
                 return True
             why.append("literal %#x is not below the modulus" % lit)
             return False
-        # a raw value on the true edge of `value < MODULUS`
+        # a raw value on an edge on which `value < MODULUS` holds (either spelling of the comparison, either polarity), or on
+        # the edge on which it tested zero
+        if self.guarded_below(body, tb, t, M, site_bb):
+            return True
+        why.append("value %s is not produced by a reduction-closed operation" % show(t, maxdepth=4)[:200])
+        return False
+
+    def guarded_below(self, body, tb, t, M, site_bb):
         for bi in sorted(body.reachable()):
             term = body.blocks[bi]["term"]
             if term["k"] != "switch":
                 continue
             d = tb.operand(term["discr"], bi, len(body.blocks[bi]["stmts"]))
-            if d[0] == "call" and d[1].name == "lt" and len(d[2]) == 2 and strip(d[2][0]) == t and self.repo.static_of(d[2][1]) == M:
-                true_bb = term["otherwise"] if any(int(a[0]) == 0 for a in term["arms"]) else None
-                if true_bb is not None and body.pred()[true_bb] == [bi] and body.dominates(true_bb, site_bb):
-                    return True
-        why.append("value %s is not produced by a reduction-closed operation" % show(t, maxdepth=4)[:200])
+            neg = False
+            while d[0] == "unop" and d[1] == "Not":
+                d = d[2]
+                neg = not neg
+            if d[0] != "call" or not d[2]:
+                continue
+            want = None       # value of the (un-negated) call result on the edge where t < M / t == 0 holds
+            if d[1].name in ("lt", "le", "gt", "ge") and len(d[2]) == 2:
+                a, b = strip(d[2][0]), strip(d[2][1])
+                if a == t and self.repo.static_of(d[2][1]) == M:
+                    want = {"lt": 1, "ge": 0}.get(d[1].name)
+                elif b == t and self.repo.static_of(d[2][0]) == M:
+                    want = {"gt": 1, "le": 0}.get(d[1].name)
+            elif d[1].name == "is_zero" and len(d[2]) == 1 and strip(d[2][0]) == t:
+                want = 1
+            if want is None:
+                continue
+            if neg:
+                want = 1 - want
+            tgt = None
+            for val, tg in term["arms"]:
+                if int(val) == want:
+                    tgt = tg
+            if tgt is None and not any(int(v) == want for v, _ in term["arms"]):
+                tgt = term["otherwise"]
+            if tgt is not None and body.pred()[tgt] == [bi] and body.dominates(tgt, site_bb):
+                return True
         return False
 
     def judge_mutcall(self, body, tb, fn, args, argpos, ap, M, site_bb, why):
@@ -427,6 +456,8 @@ def rule_guard(repo):
         n = 0
         table = []
         for asg in paths.enumerate_assignments(atoms):
+            if not consistent(asg):
+                continue
             res = paths.simulate(body, tb, paths.Evaluator(asg))
             if res.end.startswith("unknown") or res.end == "loop":
                 R.fail_closed(key + ":shape", "cannot evaluate %s over the finite domain (%s)" % (body.rec["path"], res.end), body.file_line())
@@ -444,6 +475,23 @@ def rule_guard(repo):
         if a[0] == "ord":
             return "cmp(%s,%s)" % (show(a[1], maxdepth=2), show(a[2], maxdepth=2))
         return show(a[1], maxdepth=2)
+
+    def base(t):
+        t = strip(t)
+        while t[0] == "field" and t[2] == 0:
+            t = strip(t[1])
+        return t
+
+    def consistent(asg):
+        """nothing is smaller than a value that tested zero: drop the rows an `is_zero` answer contradicts"""
+        zeros = [base(a[1][2][0]) for a, v in asg.items() if v == 1 and a[0] == "bool" and a[1][0] == "call" and a[1][1].name == "is_zero" and len(a[1][2]) == 1]
+        for a, v in asg.items():
+            if a[0] == "ord":
+                if v == "L" and base(a[2]) in zeros:
+                    return False
+                if v == "G" and base(a[1]) in zeros:
+                    return False
+        return True
 
     def ord_atom(atoms, lhs_pred, rhs_pred):
         for a in atoms:
